@@ -38,22 +38,97 @@ def _run(solver, constraints, timeout_ms, want_model):
     solver.set('timeout', int(timeout_ms))
     for c in constraints:
         solver.add(c)
+    # z3's own 'timeout' is not honoured inside some nonlinear stages (seen:
+    # minutes in Z3_solver_check with timeout=20000); a watchdog interrupts
+    # the context so that the query comes back `unknown`.
+    import threading
+    wd = threading.Timer(timeout_ms / 1000.0 * 1.5 + 2.0, solver.ctx.interrupt)
+    wd.daemon = True
+    wd.start()
     try:
         r = solver.check()
     except z3.Z3Exception:
         return 'unknown', None
+    finally:
+        wd.cancel()
     model = solver.model() if (r == z3.sat and want_model) else None
     return str(r), model
 
 
+EXTERNAL = [('z3-4.8.12-cli', ['/usr/bin/z3', '-smt2']),
+            ('cvc5-1.0.3-cli', ['/usr/bin/cvc5', '--lang=smt2'])]
+
+
+def _external(constraints, timeout_ms):
+    """Second opinion for queries the in-process z3 5.1 leaves open after its
+    short budget: the two installed CLI solvers on the SMT-LIB dump of the
+    same query, concurrently.  Only `unsat` / `sat` answers are used; parse
+    errors, timeouts and crashes are `unknown`.  Returns (result, backend)."""
+    import os, subprocess, tempfile
+    try:
+        s = z3.Solver()
+        for c in constraints:
+            s.add(c)
+        text = s.to_smt2()
+    except z3.Z3Exception:
+        return 'unknown', None
+    fd, path = tempfile.mkstemp(prefix='pvcq_', suffix='.smt2')
+    procs = []
+    try:
+        with os.fdopen(fd, 'w') as f:
+            f.write('(set-logic ALL)\n' + text)
+        secs = max(1, int(timeout_ms / 1000))
+        for name, cmd in EXTERNAL:
+            if not os.path.exists(cmd[0]):
+                continue
+            extra = ['-T:%d' % secs] if 'z3' in name else ['--tlimit=%d' % (secs * 1000)]
+            try:
+                procs.append((name, subprocess.Popen(
+                    cmd + extra + [path], stdout=subprocess.PIPE,
+                    stderr=subprocess.DEVNULL, text=True)))
+            except OSError:
+                pass
+        t_end = time.time() + secs + 2
+        pending = list(procs)
+        while pending and time.time() < t_end:
+            for name, pr in list(pending):
+                if pr.poll() is not None:
+                    pending.remove((name, pr))
+                    out = (pr.stdout.read() or '').strip().splitlines()
+                    ans = out[0].strip() if out else ''
+                    if ans in ('unsat', 'sat'):
+                        return ans, name
+            time.sleep(0.05)
+        return 'unknown', None
+    finally:
+        for _n, pr in procs:
+            if pr.poll() is None:
+                pr.kill()
+            try:
+                pr.wait(timeout=5)
+            except Exception:
+                pass
+        try:
+            os.unlink(path)
+        except OSError:
+            pass
+
+
 def check_sat(constraints, timeout_ms=SOLVER_TIMEOUT_MS, want_model=False,
               backend='z3'):
-    """Returns ('unsat'|'sat'|'unknown', model or None).  Portfolio: default
-    solver with a short budget, then the nlsat tactic (nonlinear real
-    arithmetic), then the default solver with the full budget."""
+    """Returns ('unsat'|'sat'|'unknown', model or None).  Portfolio: in-process
+    z3 (default solver) with a short budget; then the installed CLI solvers
+    (z3 4.8.12, cvc5) on the SMT-LIB dump, whose `unsat` is final (and whose
+    `sat` is final when no model is wanted); then the nlsat tactic (nonlinear
+    real arithmetic); then the default solver with the full budget."""
     t0 = time.time()
     first = min(timeout_ms, 1500)
     res, model = _run(z3.Solver(), constraints, first, want_model)
+    if res == 'unknown' and timeout_ms > first:
+        r2, who = _external(constraints, min(timeout_ms, 10000))
+        if r2 == 'unsat' or (r2 == 'sat' and not want_model):
+            STATS.add(who, time.time() - t0)
+            return r2, None
     if res == 'unknown':
         try:
             t = z3.Then('simplify', 'purify-arith', 'qfnra-nlsat')
